@@ -16,6 +16,9 @@ Record rangeops (I : interp) := {
   mkbox : vecT -> vecT -> boxT;
   r_default : boxT;                 (* range_t()            *)
   r_emptyty : boxT;                 (* range_t(EmptyTy)     *)
+  r_zero : boxT;                    (* range_t(ZeroTy)      *)
+  r_one : boxT;                     (* range_t(OneTy)       *)
+  r_single : vecT -> boxT;          (* range_t(const T &)   *)
   r_contains : boxT -> vecT -> bool;
   r_isempty : boxT -> bool;
   r_extendp : boxT -> vecT -> boxT;
@@ -26,10 +29,10 @@ Record rangeops (I : interp) := {
 }.
 Arguments rname {I}. Arguments ety {I}. Arguments vecT {I}. Arguments boxT {I}. Arguments dim {I}.
 Arguments comps {I}. Arguments ofcomps {I}. Arguments lower {I}. Arguments upper {I}. Arguments mkbox {I}.
-Arguments r_default {I}. Arguments r_emptyty {I}. Arguments r_contains {I}. Arguments r_isempty {I}.
+Arguments r_default {I}. Arguments r_emptyty {I}. Arguments r_zero {I}. Arguments r_one {I}. Arguments r_single {I}. Arguments r_contains {I}. Arguments r_isempty {I}.
 Arguments r_extendp {I}. Arguments r_extendb {I}. Arguments r_clamp {I}. Arguments r_size {I}. Arguments r_center {I}.
 
-(* scaling / translation / comparison operators (instantiated for all but box3fa) *)
+(* scaling / translation / comparison operators *)
 Record arithops (I : interp) := {
   a_r :> rangeops I;
   a_scale_r : boxT a_r -> vecT a_r -> boxT a_r;      (* range * scale *)
@@ -69,6 +72,7 @@ Definition ops_1i : rangeops I := {|
   lower := range_t_s_lower; upper := range_t_s_upper;
   mkbox := range_t_i_mk__i_i I;
   r_default := range_t_i_mk__ I; r_emptyty := range_t_i_mk__EmptyTy I tt;
+  r_zero := range_t_i_mk__ZeroTy I tt; r_one := range_t_i_mk__OneTy I tt; r_single := range_t_i_mk__i I;
   r_contains := range_t_i_contains__i I; r_isempty := range_t_i_empty__ I;
   r_extendp := range_t_i_extend__i I; r_extendb := range_t_i_extend__range_t_i I;
   r_clamp := range_t_i_clamp__i I; r_size := range_t_i_size__ I; r_center := range_t_i_center__ I;
@@ -81,6 +85,7 @@ Definition ops_1f : rangeops I := {|
   lower := range_t_s_lower; upper := range_t_s_upper;
   mkbox := range_t_f_mk__f_f I;
   r_default := range_t_f_mk__ I; r_emptyty := range_t_f_mk__EmptyTy I tt;
+  r_zero := range_t_f_mk__ZeroTy I tt; r_one := range_t_f_mk__OneTy I tt; r_single := range_t_f_mk__f I;
   r_contains := range_t_f_contains__f I; r_isempty := range_t_f_empty__ I;
   r_extendp := range_t_f_extend__f I; r_extendb := range_t_f_extend__range_t_f I;
   r_clamp := range_t_f_clamp__f I; r_size := range_t_f_size__ I; r_center := range_t_f_center__ I;
@@ -93,6 +98,7 @@ Definition ops_2i : rangeops I := {|
   lower := range_t_vec2_lower; upper := range_t_vec2_upper;
   mkbox := range_t_v2i_mk__v2i_v2i I;
   r_default := range_t_v2i_mk__ I; r_emptyty := range_t_v2i_mk__EmptyTy I tt;
+  r_zero := range_t_v2i_mk__ZeroTy I tt; r_one := range_t_v2i_mk__OneTy I tt; r_single := range_t_v2i_mk__v2i I;
   r_contains := range_t_v2i_contains__v2i I; r_isempty := range_t_v2i_empty__ I;
   r_extendp := range_t_v2i_extend__v2i I; r_extendb := range_t_v2i_extend__range_t_v2i I;
   r_clamp := range_t_v2i_clamp__v2i I; r_size := range_t_v2i_size__ I; r_center := range_t_v2i_center__ I;
@@ -105,6 +111,7 @@ Definition ops_2f : rangeops I := {|
   lower := range_t_vec2_lower; upper := range_t_vec2_upper;
   mkbox := range_t_v2f_mk__v2f_v2f I;
   r_default := range_t_v2f_mk__ I; r_emptyty := range_t_v2f_mk__EmptyTy I tt;
+  r_zero := range_t_v2f_mk__ZeroTy I tt; r_one := range_t_v2f_mk__OneTy I tt; r_single := range_t_v2f_mk__v2f I;
   r_contains := range_t_v2f_contains__v2f I; r_isempty := range_t_v2f_empty__ I;
   r_extendp := range_t_v2f_extend__v2f I; r_extendb := range_t_v2f_extend__range_t_v2f I;
   r_clamp := range_t_v2f_clamp__v2f I; r_size := range_t_v2f_size__ I; r_center := range_t_v2f_center__ I;
@@ -117,6 +124,7 @@ Definition ops_3i : rangeops I := {|
   lower := range_t_vec3_lower; upper := range_t_vec3_upper;
   mkbox := range_t_v3i_mk__v3i_v3i I;
   r_default := range_t_v3i_mk__ I; r_emptyty := range_t_v3i_mk__EmptyTy I tt;
+  r_zero := range_t_v3i_mk__ZeroTy I tt; r_one := range_t_v3i_mk__OneTy I tt; r_single := range_t_v3i_mk__v3i I;
   r_contains := range_t_v3i_contains__v3i I; r_isempty := range_t_v3i_empty__ I;
   r_extendp := range_t_v3i_extend__v3i I; r_extendb := range_t_v3i_extend__range_t_v3i I;
   r_clamp := range_t_v3i_clamp__v3i I; r_size := range_t_v3i_size__ I; r_center := range_t_v3i_center__ I;
@@ -129,6 +137,7 @@ Definition ops_3f : rangeops I := {|
   lower := range_t_vec3_lower; upper := range_t_vec3_upper;
   mkbox := range_t_v3f_mk__v3f_v3f I;
   r_default := range_t_v3f_mk__ I; r_emptyty := range_t_v3f_mk__EmptyTy I tt;
+  r_zero := range_t_v3f_mk__ZeroTy I tt; r_one := range_t_v3f_mk__OneTy I tt; r_single := range_t_v3f_mk__v3f I;
   r_contains := range_t_v3f_contains__v3f I; r_isempty := range_t_v3f_empty__ I;
   r_extendp := range_t_v3f_extend__v3f I; r_extendb := range_t_v3f_extend__range_t_v3f I;
   r_clamp := range_t_v3f_clamp__v3f I; r_size := range_t_v3f_size__ I; r_center := range_t_v3f_center__ I;
@@ -141,6 +150,7 @@ Definition ops_3af : rangeops I := {|
   lower := range_t_vec3a_lower; upper := range_t_vec3a_upper;
   mkbox := range_t_v3af_mk__v3af_v3af I;
   r_default := range_t_v3af_mk__ I; r_emptyty := range_t_v3af_mk__EmptyTy I tt;
+  r_zero := range_t_v3af_mk__ZeroTy I tt; r_one := range_t_v3af_mk__OneTy I tt; r_single := range_t_v3af_mk__v3af I;
   r_contains := range_t_v3af_contains__v3af I; r_isempty := range_t_v3af_empty__ I;
   r_extendp := range_t_v3af_extend__v3af I; r_extendb := range_t_v3af_extend__range_t_v3af I;
   r_clamp := range_t_v3af_clamp__v3af I; r_size := range_t_v3af_size__ I; r_center := range_t_v3af_center__ I;
@@ -153,6 +163,7 @@ Definition ops_4i : rangeops I := {|
   lower := range_t_vec4_lower; upper := range_t_vec4_upper;
   mkbox := range_t_v4i_mk__v4i_v4i I;
   r_default := range_t_v4i_mk__ I; r_emptyty := range_t_v4i_mk__EmptyTy I tt;
+  r_zero := range_t_v4i_mk__ZeroTy I tt; r_one := range_t_v4i_mk__OneTy I tt; r_single := range_t_v4i_mk__v4i I;
   r_contains := range_t_v4i_contains__v4i I; r_isempty := range_t_v4i_empty__ I;
   r_extendp := range_t_v4i_extend__v4i I; r_extendb := range_t_v4i_extend__range_t_v4i I;
   r_clamp := range_t_v4i_clamp__v4i I; r_size := range_t_v4i_size__ I; r_center := range_t_v4i_center__ I;
@@ -165,6 +176,7 @@ Definition ops_4f : rangeops I := {|
   lower := range_t_vec4_lower; upper := range_t_vec4_upper;
   mkbox := range_t_v4f_mk__v4f_v4f I;
   r_default := range_t_v4f_mk__ I; r_emptyty := range_t_v4f_mk__EmptyTy I tt;
+  r_zero := range_t_v4f_mk__ZeroTy I tt; r_one := range_t_v4f_mk__OneTy I tt; r_single := range_t_v4f_mk__v4f I;
   r_contains := range_t_v4f_contains__v4f I; r_isempty := range_t_v4f_empty__ I;
   r_extendp := range_t_v4f_extend__v4f I; r_extendb := range_t_v4f_extend__range_t_v4f I;
   r_clamp := range_t_v4f_clamp__v4f I; r_size := range_t_v4f_size__ I; r_center := range_t_v4f_center__ I;
@@ -210,6 +222,11 @@ Definition aops_4f : arithops I := {| a_r := ops_4f;
   a_trans_r := op_add__range_t_v4f_v4f I; a_trans_l := op_add__v4f_range_t_v4f I;
   a_eq := op_eq__range_t_v4f_range_t_v4f I; a_ne := op_ne__range_t_v4f_range_t_v4f I |}.
 
+Definition aops_3af : arithops I := {| a_r := ops_3af;
+  a_scale_r := op_mul__range_t_v3af_v3af I; a_scale_l := op_mul__v3af_range_t_v3af I;
+  a_trans_r := op_add__range_t_v3af_v3af I; a_trans_l := op_add__v3af_range_t_v3af I;
+  a_eq := op_eq__range_t_v3af_range_t_v3af I; a_ne := op_ne__range_t_v3af_range_t_v3af I |}.
+
 Definition bops_2i : boxops I := {| b_r := ops_2i;
   b_inter := intersectionOf__range_t_v2i_range_t_v2i I; b_disjoint := disjoint__range_t_v2i_range_t_v2i I;
   b_center := center__range_t_v2i I |}.
@@ -251,7 +268,7 @@ Definition tops_3af : touchops I := {| t_b := bops_3af; t_touching := touchingOr
 Definition range_insts : list (rangeops I) := [ops_1i; ops_1f; ops_2i; ops_2f; ops_3i; ops_3f; ops_3af; ops_4i; ops_4f].
 Definition int_insts : list (rangeops I) := [ops_1i; ops_2i; ops_3i; ops_4i].
 Definition float_insts : list (rangeops I) := [ops_1f; ops_2f; ops_3f; ops_3af; ops_4f].
-Definition arith_insts : list (arithops I) := [aops_1i; aops_1f; aops_2i; aops_2f; aops_3i; aops_3f; aops_4i; aops_4f].
+Definition arith_insts : list (arithops I) := [aops_1i; aops_1f; aops_2i; aops_2f; aops_3i; aops_3f; aops_3af; aops_4i; aops_4f].
 Definition box_insts : list (boxops I) := [bops_2i; bops_2f; bops_3i; bops_3f; bops_3af; bops_4i; bops_4f].
 Definition touch_insts : list (touchops I) := [tops_2i; tops_2f; tops_3i; tops_3f; tops_3af].
 End Inst.
